@@ -42,6 +42,7 @@ def key_of(rec):
     m = rec.get("msg") or ""
     if "Division by zero" in m: return "zero-divisor-under-false-guard"
     if "LinCombBool can only take Boolean values" in m: return "non-boolean-LinCombBool-under-false-guard"
+    if rec["exn"] == "ZeroDivisionError": return "no-field-inverse-under-false-guard"       # raised by backend.fieldinverse (value = 0 mod p, not 0)
     return "other:" + (rec["exn"] or "")
 
 
